@@ -161,6 +161,8 @@ Proof.
   - unfold fund in H. inversion H; subst. left; reflexivity.
   - unfold slash_val in H. destruct (negb (has_val s v)); inversion H; subst; left; reflexivity.
   - unfold env_val in H. inversion H; subst. left; reflexivity.
+  - unfold slash_past in H. inversion H; subst. left; reflexivity.
+  - unfold env_stat in H. inversion H; subst. left; reflexivity.
   - unfold exec_batch in H. guards H. inversion H; subst. left; reflexivity.
   - unfold export_import in H. inversion H; subst. left; reflexivity.
   - unfold observe_set in H. guards H. inversion H; subst. left; reflexivity.
@@ -219,6 +221,8 @@ Proof.
   - unfold fund in H. inversion H; subst. left; reflexivity.
   - unfold slash_val in H. destruct (negb (has_val s v)); inversion H; subst; left; reflexivity.
   - unfold env_val in H. inversion H; subst. left; reflexivity.
+  - unfold slash_past in H. inversion H; subst. left; reflexivity.
+  - unfold env_stat in H. inversion H; subst. left; reflexivity.
   - unfold exec_batch in H. guards H. inversion H; subst. left; reflexivity.
   - unfold export_import in H. inversion H; subst. left; reflexivity.
   - unfold observe_set in H. guards H. inversion H; subst. left; reflexivity.
@@ -321,6 +325,8 @@ Proof.
   - exfalso. unfold fund in H. inversion H; subst; clear H. proj; congruence.
   - exfalso. unfold slash_val in H. destruct (negb (has_val s v)); inversion H; subst; clear H; unfold set_vals_deleg in *; proj; congruence.
   - exfalso. unfold env_val in H. inversion H; subst; clear H. unfold set_vals_deleg in *; proj; congruence.
+  - exfalso. unfold slash_past in H. inversion H; subst; clear H. proj; congruence.
+  - exfalso. unfold env_stat in H. inversion H; subst; clear H. unfold set_vals_deleg in *; proj; congruence.
   - exfalso. unfold exec_batch in H. guards H. inversion H; subst; clear H. unfold set_objs in Hr'; proj; congruence.
   - exfalso. pose proof (export_import_recs_sub _ _ _ _ I H Hr'). congruence.
   - exfalso. unfold observe_set in H. guards H. inversion H; subst; clear H. proj; congruence.
@@ -389,6 +395,8 @@ Proof.
   - exfalso. unfold fund in H. inversion H; subst; clear H. proj; lia.
   - exfalso. unfold slash_val in H. destruct (negb (has_val s v)); inversion H; subst; clear H; unfold set_vals_deleg in *; proj; lia.
   - exfalso. unfold env_val in H. inversion H; subst; clear H. unfold set_vals_deleg in *; proj; lia.
+  - exfalso. unfold slash_past in H. inversion H; subst; clear H. proj; lia.
+  - exfalso. unfold env_stat in H. inversion H; subst; clear H. unfold set_vals_deleg in *; proj; lia.
   - exfalso. unfold exec_batch in H. guards H. inversion H; subst; clear H. unfold set_objs in Lt; proj; lia.
   - exfalso. destruct (recs s' a) as [r'|] eqn:Hr'.
     + rewrite (export_import_recs_sub _ _ _ _ I H Hr') in Lt. lia.
@@ -546,7 +554,7 @@ Qed.
 
 Definition FX (n : Z) : Z := n * 10 ^ 18.
 (* three validators with 100 FX of their own, 1 share = 1 token *)
-Definition w_vals : vset := mkV [0; 1; 2] (fun _ => FX 100) (fun _ => FX 100 * dec_one).
+Definition w_vals : vset := mkV [0; 1; 2] (fun _ => FX 100) (fun _ => FX 100 * dec_one) (fun _ => 0) (fun _ => 0).
 Definition w_init : state := init 2 10 1814400 w_vals (mkParams (FX 10000) 10 (8 * 10 ^ 17) 2).
 Definition w_setup : list op :=
   map (fun a => Fund a (FX 300000)) [0; 1; 2; 3; 4; 5; 6] ++
@@ -612,7 +620,7 @@ Proof.
   | exists w_B, 0; cbv zeta; exists (exec (run w_init w_B) (Unbond 0));
     split; [apply step_exec_ok; vm_compute; reflexivity|];
     split; [vm_compute; reflexivity|]; split; [vm_compute; reflexivity|]; split; [vm_compute; reflexivity|];
-    split; [exists (mkUbd 0 0 1814410 (FX 10000)); vm_compute; auto|];
+    split; [exists (mkUbd 0 0 1814410 (FX 10000) 3 (FX 10000)); vm_compute; auto|];
     split; [vm_compute; reflexivity|]; split; vm_compute; reflexivity ].
 Qed.
 
